@@ -6,8 +6,8 @@
     and to be closed under [step] ([closed], by [vm_compute]), and the
     kernel-checked lemma [closed_sound] turns this into
     [forall s, reachable s -> s is in the table]. *)
-From Verif Require Import Base.Prelude Model.Fallback.
-From Coq Require Import FMapPositive.
+From Verif Require Import Base.Prelude Gen.Constants Gen.FallbackFacts Model.Fallback.
+From Coq Require Import FMapPositive ZifyBool.
 Open Scope N_scope.
 
 (** ** Equality *)
@@ -420,3 +420,36 @@ Proof.
   - apply (follow_reachable _ _ _ _ _ (reach_init _ _) F).
   - vm_compute in F. injection F as <-. repeat split.
 Qed.
+
+(** ** The configuration path: which duration the threshold timer is armed with *)
+Lemma effective_threshold_configured cfg :
+  (0 < cfg)%Z -> effective_threshold cfg = (cfg * 1000000)%Z.
+Proof.
+  intro H. unfold effective_threshold, ns_per_ms.
+  destruct (cfg * 1000000 <=? 0)%Z eqn:E; [lia|reflexivity].
+Qed.
+
+Lemma effective_threshold_default cfg :
+  (cfg <= 0)%Z -> effective_threshold cfg = fallback_default_threshold.
+Proof.
+  intro H. unfold effective_threshold, ns_per_ms.
+  destruct (cfg * 1000000 <=? 0)%Z eqn:E; [reflexivity|lia].
+Qed.
+
+(** The function tools/gofacts translated from the statements of
+    newFallbackPlugin is the modelled one. *)
+Lemma source_threshold_as_modelled cfg :
+  fallback_effective_threshold cfg = effective_threshold cfg.
+Proof.
+  unfold fallback_effective_threshold, effective_threshold, ns_per_ms, fallback_default_threshold.
+  cbv zeta.
+  repeat match goal with |- context [if ?b then _ else _] => destruct b eqn:? end; lia.
+Qed.
+
+Lemma source_threshold_configured cfg :
+  (0 < cfg)%Z -> fallback_effective_threshold cfg = (cfg * 1000000)%Z.
+Proof. intro H. rewrite source_threshold_as_modelled. apply effective_threshold_configured, H. Qed.
+
+Lemma source_threshold_default cfg :
+  (cfg <= 0)%Z -> fallback_effective_threshold cfg = fallback_default_threshold.
+Proof. intro H. rewrite source_threshold_as_modelled. apply effective_threshold_default, H. Qed.
